@@ -75,7 +75,8 @@ def opt(n):
 
 NEUTRAL_MODES = ["set -u", "set -E", "set -T", "set -f", "set -C", "set -h", "set +h", "set +B", "set -o physical",
                  "shopt -s extglob", "shopt -s nullglob", "shopt -s nocasematch", "shopt -s expand_aliases", "shopt -s globstar",
-                 "shopt -u sourcepath", "set -a", "set -o vi", "set -o emacs", "shopt -s checkwinsize", "set -o posix"]
+                 "shopt -u sourcepath", "set -a", "set -o vi", "set -o emacs", "shopt -s checkwinsize"]
+# `set -o posix` is NOT neutral: a `return` outside a function is then a fatal special-builtin error in bash (exit 2)
 COMPOUND_KINDS = ("I", "J", "W", "U", "F", "G", "C", "Gr", "Su", "K")
 
 
